@@ -304,8 +304,10 @@ def gen_cases(rng, tier):
     for i in range(n_ctx):
         n_atoms = rng.randint(2, 4)
         gf = lambda mx: g_formula(rng, n_atoms, rng.randint(1, mx), rng.randint(1, 3))  # noqa: E731
-        tmpl, prog, subs = cx.gen_prog(rng, gf, cx.TEMPLATES[i % len(cx.TEMPLATES)])
-        cases.append(ctx_case(tmpl, prog, subs, cx.gen_seqs(rng, prog, subs, n_cseq)))
+        tmpl = cx.TEMPLATES[i % len(cx.TEMPLATES)]
+        fail = tmpl != "subgroup" and (i // len(cx.TEMPLATES)) % 3 == 2  # every third round: flows that can fail, else branches
+        tmpl, prog, subs = cx.gen_prog(rng, gf, tmpl, fail)
+        cases.append(ctx_case(tmpl, prog, subs, cx.gen_seqs(rng, prog, subs, n_cseq, fail=fail), fail))
     if not quick:
         # every tree with <= 2 leaves re-entered in a loop, all sequences of length <= 5 (match / await / when)
         for kind in ("match", "await", "when"):
@@ -331,9 +333,9 @@ def gen_cases(rng, tier):
     return cases
 
 
-def ctx_case(tmpl, prog, subs, seqs):
+def ctx_case(tmpl, prog, subs, seqs, fail=False):
     gs = cx.groups_of(prog)
-    return {"kind": "ctx", "tmpl": tmpl, "prog": prog, "subs": subs, "g": cx.subst(gs[0][1], subs), "seqs": seqs}
+    return {"kind": "ctx", "tmpl": tmpl, "prog": prog, "subs": subs, "fail": fail, "g": cx.subst(gs[0][1], subs), "seqs": seqs}
 
 
 def escalate(rng, focus, tier):
@@ -378,6 +380,31 @@ def worker_init():
 
 def _quiet():
     return contextlib.redirect_stdout(io.StringIO())
+
+
+class _Stuck(Exception):
+    pass
+
+
+@contextlib.contextmanager
+def _time_limit(seconds):
+    """a changed interpreter may never come to rest (e.g. a loop whose group completes without any event): turn that into an observation"""
+    import signal
+
+    def _h(signum, frame):
+        raise _Stuck(f"run_to_completion did not return within {seconds} s")
+
+    try:
+        old = signal.signal(signal.SIGALRM, _h)
+    except ValueError:  # not in the main thread: no guard
+        yield
+        return
+    signal.setitimer(signal.ITIMER_REAL, seconds)
+    try:
+        yield
+    finally:
+        signal.setitimer(signal.ITIMER_REAL, 0)
+        signal.signal(signal.SIGALRM, old)
 
 
 def spec_to_json(x):
@@ -626,7 +653,7 @@ def run_e2e(case):
         src, flows, grp = parse_group(case["op"], case["g"], case["kinds"] + ["ev"] * 10, case.get("minimal", False))
         obs["src"] = src
         obs["g_seen"] = spec_to_json(grp)
-        with _quiet():
+        with _quiet(), _time_limit(20):
             st = _M["State"](flow_states=[], flow_configs=_M["cfgs"](flows))
             sm.initialize_state(st)
             sm.run_to_completion(st, _M["InternalEvent"](name="StartFlow", arguments={"flow_id": "main"}))
@@ -646,7 +673,7 @@ def run_e2e(case):
         _CH["rng"] = _random.Random(json.dumps([case["g"], seq]))
         _CH["log"] = []
         try:
-            with _quiet():
+            with _quiet(), _time_limit(20):
                 for a in seq:
                     sm.run_to_completion(s, {"type": ev_name(a)})
                     got = [e.get("type") for e in s.outgoing_events if e.get("type") in ("Hit", "Hit2")]
@@ -676,9 +703,9 @@ def run_ctx(case):
     sm = _M["sm"]
     obs = {}
     try:
-        src = cx.program(case["prog"], case["subs"])
+        src = cx.program(case["prog"], case["subs"], case.get("fail", False))
         obs["src"] = src
-        with _quiet():
+        with _quiet(), _time_limit(20):
             r = _M["parse"](filename="", content=src, include_source_mapping=False, version="2.x")
             st = _M["State"](flow_states=[], flow_configs=_M["cfgs"](r["flows"]))
             sm.initialize_state(st)
@@ -696,7 +723,7 @@ def run_ctx(case):
         _CH["rng"] = _random.Random(json.dumps([case["g"], seq]))
         _CH["log"] = []
         try:
-            with _quiet():
+            with _quiet(), _time_limit(20):
                 for a in seq:
                     sm.run_to_completion(s, {"type": ev_name(a)})
                     marks.append([e.get("type") for e in s.outgoing_events if str(e.get("type")).startswith("Hit")])
@@ -757,8 +784,11 @@ def model_requests(case, obs):
     kind = case["kind"]
     if kind == "ctx":
         # one activation of each (substituted) group formula on every suffix of every sequence
-        sufs = [seq[i:] for seq in case["seqs"] for i in range(len(seq))]
-        return [{"m": "C07.markers", "g": g, "seqs": sufs} for g in ctx_formulas(case)]
+        reqs = []
+        for kind_, g in ctx_formulas(case):
+            sufs = [cx.view(kind_, seq)[i:] for seq in case["seqs"] for i in range(len(seq))]
+            reqs.append({"m": "C07.flow", "g": g, "seqs": sufs} if case.get("fail") else {"m": "C07.markers", "g": g, "seqs": sufs})
+        return reqs
     if "g_seen" not in obs or _has_unknown(obs["g_seen"]):
         return []
     if kind == "norm":
@@ -782,11 +812,12 @@ def model_requests(case, obs):
 
 
 def ctx_formulas(case):
+    """the distinct (statement view, substituted formula) pairs of the program; view = "match" (events) or "flow" """
     out = []
-    for _, g in cx.groups_of(case["prog"]):
-        gs = cx.subst(g, case["subs"])
-        if gs not in out:
-            out.append(gs)
+    for k, g in cx.groups_of(case["prog"]):
+        x = ("match" if k == "match" else "flow", cx.subst(g, case["subs"]))
+        if x not in out:
+            out.append(x)
     return out
 
 
@@ -798,13 +829,14 @@ def ctx_check(case, obs, first_sat, who):
     for seq, run in zip(case["seqs"], obs["runs"]):
         if run["exc"]:
             return f"sequence {seq}: run_to_completion raised {run['exc']}"
-        got = tuple(tuple(x) for x in run["marks"])
+        got = (tuple(tuple(x) for x in run["marks"]), run["main"] != "STARTED")
         poss = cx.traces(case["prog"], case["subs"], seq, first_sat)
         if got not in poss:
             exp = sorted(poss)[0]
-            k = next((i for i, (a, b) in enumerate(zip(got, exp)) if a != b), 0)
-            return (f"{case['tmpl']} program: sequence {seq}: markers per event {[list(x) for x in got]} but {who} "
-                    f"{[list(x) for x in exp]}{' (or ' + str(len(poss) - 1) + ' other tie outcomes)' if len(poss) > 1 else ''}; first difference at index {k} "
+            k = next((i for i, (a, b) in enumerate(zip(got[0], exp[0])) if a != b), None)
+            return (f"{case['tmpl']} program: sequence {seq}: markers per event {[list(x) for x in got[0]]}, main flow {run['main']}, but {who} "
+                    f"{[list(x) for x in exp[0]]}{', main flow aborted by a failing group' if exp[1] else ''}"
+                    f"{' (or ' + str(len(poss) - 1) + ' other tie outcomes)' if len(poss) > 1 else ''}; first difference at index {k} "
                     f"(every group statement completes at the first prefix, since IT became active, that satisfies its formula)")
     return None
 
@@ -833,14 +865,19 @@ def compare(case, obs, mouts):
     if kind == "ctx":
         table = {}
         sufs = [(tuple(seq), i) for seq in case["seqs"] for i in range(len(seq))]
-        for g, mo in zip(ctx_formulas(case), mouts):
-            for (sq, i), mk in zip(sufs, mo["markers"]):
-                table[(json.dumps(g), sq, i)] = (i + mk.index(True)) if True in mk else None
+        for (kind_, g), mo in zip(ctx_formulas(case), mouts):
+            if case.get("fail"):
+                for (sq, i), tr_ in zip(sufs, mo["runs"]):
+                    os_ = [st_["o"] for st_ in tr_]
+                    table[(kind_, json.dumps(g), sq, i)] = ((i + os_.index(1)) if 1 in os_ else None, (i + os_.index(2)) if 2 in os_ else None)
+            else:
+                for (sq, i), mk in zip(sufs, mo["markers"]):
+                    table[(kind_, json.dumps(g), sq, i)] = ((i + mk.index(True)) if True in mk else None, None)
 
-        def first_sat_model(g, seq, i):
-            return table.get((json.dumps(g), tuple(seq), i)) if i < len(seq) else None
+        def outcome_model(kind_, g, seq, i):
+            return table.get(("match" if kind_ == "match" else "flow", json.dumps(g), tuple(seq), i), (None, None))
 
-        return ctx_check(case, obs, first_sat_model, "the model (Dnf.markers per activation) gives")
+        return ctx_check(case, obs, outcome_model, "the model (Dnf.markers / GroupFlow.outs per activation) gives")
     if kind == "norm":
         if "exc" in obs:
             return f"normalize_element_groups raised {obs['exc']}, model returned {json.dumps(m['norm'])[:120]}"
@@ -933,7 +970,7 @@ def oracle(case, obs):
     kind = case["kind"]
     g = case["g"]
     if kind == "ctx":
-        return ctx_check(case, obs, cx.first_sat_py, "the formula says")
+        return ctx_check(case, obs, cx.outcome_py, "the formula says")
     if kind == "expand" and case.get("stmt") == "when":
         if "exc" in obs:
             return None  # reported by the correspondence
@@ -1053,7 +1090,7 @@ def tags(case, obs):
     if case["kind"] == "expand" and "prims" in obs:
         t.append(f"prims:{len(obs['prims']) // 10 * 10}+")
     if case["kind"] == "ctx":
-        t.append("tmpl:" + case["tmpl"])
+        t.append("tmpl:" + case["tmpl"] + ("+fail" if case.get("fail") else ""))
         t.extend(sorted({"ctx-stmt:" + k for k, _ in cx.groups_of(case["prog"])}))
         if "runs" in obs:
             t.append(f"max-markers:{min(4, max([sum(len(x) for x in r['marks']) for r in obs['runs']] + [0]))}")
